@@ -153,6 +153,9 @@ func engine(family, profile string, seed uint64, n int, out string, shard int, i
 			}
 		}
 		stats.Add(c)
+		if c.SkipModel {
+			continue
+		}
 		if len(only) > 0 && !c.RepeatsAgree() {
 			for _, r := range c.Repeats {
 				fmt.Fprintf(os.Stderr, "--- repeat of case %d\n%s\n", i, r)
